@@ -158,8 +158,8 @@ theorem good_literal {g : GCtx} (hg : GOK g) (ip : Bool) (v : Lit) (hf : fTy g i
   simp only [List.length_cons, List.length_nil]
   unfold parameterized
   rw [special_typing_Literal]
-  simp only [pytdLiteral, List.mapM_cons, List.mapM_nil]
-  show Except.ok (joinTypes [Ty.literal v]) = _
-  rw [joinTypes_single_lit]
+  simp only [pytdLiteral, litParamsTypes, litParamTypes]
+  show Except.ok (joinTypes ([Ty.literal v] ++ [])) = _
+  rw [List.append_nil, joinTypes_single_lit]
 
 end PytypeModel.Pytd
